@@ -40,7 +40,36 @@ def witness_replay(entry):
 def dispatch_hook(ctx):
     """store-level claim: Props/C07_dispatch.v over Model/Dispatch.v + the H-dispatch tie and search"""
     from lib import h_dispatch
+    wrapper_source(ctx)
     return h_dispatch.hook(ctx, "C07")
+
+
+def wrapper_source(ctx):
+    """the event plumbing of the component dispatcher (regularize / tag + automatic ACCEPT) and the store's address rules, regenerated
+    from the tree under test (fail closed); Props/C07_wrapper_src.v proves them equal to the definitions of Model/Dispatch.v"""
+    import tr_wrapper
+    from lib.vf import REPO
+    try:
+        files, meta = tr_wrapper.gen(str(REPO))
+    except Exception as e:      # noqa: BLE001
+        ctx.prepare_coq()
+        for f in (ctx.coq / "gen").glob("WrapperSrc.*"):
+            f.unlink()
+        ctx.broken.append("translator tools/tr_wrapper.py rejects the source: %s" % str(e)[:400])
+        ctx.obligations += 1
+        ctx.cov.setdefault("translators", {})["tr_wrapper"] = {"rejected": str(e)[:400]}
+        return
+    for n, t in files.items():
+        ctx.write_gen(n, t)
+    ctx.cov.setdefault("translators", {})["tr_wrapper"] = {"rejected": None, "functions": meta["functions"]}
+    pf = "theories/Props/C07_wrapper_src.v"
+    ok, log, failed = ctx.build([pf + "o"])
+    if ok:
+        ctx.check_props(pf)
+    else:
+        ctx.obligations += 1
+        ctx.broken.append("the wrapper functions generated from the source are no longer the definitions of Model/Dispatch.v "
+                          "(Proofs/WrapperTie.v): %s: %s" % (failed, ec.err_of(log)))
 
 
 def run(ctx: Ctx) -> int:
